@@ -121,6 +121,11 @@ pub trait Check: Sync {
     fn fixed_plans(&self, _tier: Tier) -> Vec<Value> {
         Vec::new()
     }
+    /// wall-clock limit for ONE run before it is treated as a hang (generous: normal runs take
+    /// milliseconds; only the Miri-scheduled real-rayon runs of C14 take tens of seconds)
+    fn wall_limit_s(&self) -> u64 {
+        120
+    }
     fn rule(&self) -> String;
     fn assumptions(&self) -> Vec<String>;
     fn components(&self) -> Value;
